@@ -1,11 +1,28 @@
 /-
-  C01 — Write/read round trip is exact, ordered, complete for every configuration.
+  C01 — Write/read round trip is exact, ordered, complete for every configuration;
+  and the byte-level versions of C02–C05 on files produced by the writer.
+
+  Everything below is about the *executable* reader, `RC.step byteOps (loadCursor cd file) true`
+  started from `RC.new m` with `m` the parsed trailer, over the bytes `file` returned by
+  `W.run cd cfg es`.  The statements are obtained by composing
+    T-writer  (`T_writer_ok`, `T_writer_tree`, `T_writer_bytes`: the file is a well-formed tree
+               over `es`, every emitted block can be loaded back at its offset),
+    T-block   (`parse_built`, `byteOps_sim`: the byte-level in-block cursor is the list cursor),
+    T-cursor  (`TCursor.step_inv`: the reader over the abstract store is the specification cursor),
+    the simulation lifting (`RC_step_sim`), the no-error invariant (`Assembly.NE_step`) and
+    loader monotonicity (`step_load_mono`) — see Grenad/Proofs/Assembly.lean.
+
+  Hypotheses (`Assembly.Setting cd cfg es file log`):
+    `WriterHyps cd cfg es` (codec lawful, `index_levels ≤ 255`, `es` strictly ascending, key and
+    value lengths `< 2^32`), `1 ≤ cfg.interval`, `W.run cd cfg es = .ok (file, log)`,
+    `file.length < 2^64`, `es.length < 2^64`, `cd.id ≤ 5`, and every emitted block shorter than
+    `2^32` bytes (T-block's footer assumption).
 -/
-import Grenad.Model.Abstract
+import Grenad.Proofs.Assembly
 
 namespace Grenad.Props.C01
 
-open Grenad
+open Grenad Grenad.Assembly
 
 /-- Finding F2, as a theorem about the mirror of the *pinned* code (`len() as u8 - 1`):
     with `index_levels = 255` finishing traps, even for the empty file. -/
@@ -15,4 +32,372 @@ def finishPinned (idxLen : Nat) : Except Trap Nat :=
 
 theorem C01_levels255_trapped_when_pinned : finishPinned (255 + 1) = .error .u8Overflow := by rfl
 
+/-! ### The executable reader -/
+
+/-- One public cursor call of the byte-level reader over `file` (repaired code, `fixF1 = true`). -/
+abbrev reader (cd : Codec) (file : Bytes) : RC BlockCursor → Op → RC BlockCursor × Res :=
+  RC.step byteOps (loadCursor cd file) true
+
+/-- `next()` × `n` from `c`: the results in order. -/
+abbrev scanForward (cd : Codec) (file : Bytes) (n : Nat) (c : RC BlockCursor) : List Res :=
+  scan (reader cd file) .next n c
+
+/-- `prev()` × `n` from `c`: the results in order. -/
+abbrev scanBackward (cd : Codec) (file : Bytes) (n : Nat) (c : RC BlockCursor) : List Res :=
+  scan (reader cd file) .prev n c
+
+section
+variable {cd : Codec} {cfg : WCfg} {es : List Entry} {file : Bytes} {log : List Emitted}
+  {m : Meta.Meta}
+
+/-! ### C01 -/
+
+/-- The written file opens (the trailer parses). -/
+theorem C01_opens (S : Setting cd cfg es file log) : ∃ m, Meta.parse file = .ok m := by
+  obtain ⟨root, -, h⟩ := S.fileOK
+  exact ⟨_, h⟩
+
+/-- **C01, on the output of a run.**  The parsed trailer reports version 2, the codec, the number
+    of inserted pairs and the configured number of index levels; `next()` × `(n+1)` from the
+    freshly opened cursor returns exactly the inserted pairs in insertion order and then `None`
+    (nothing lost, duplicated, reordered, truncated or altered); `prev()` × `(n+1)` returns them
+    in reverse order and then `None`. -/
+theorem C01_roundtrip_of_run (S : Setting cd cfg es file log) (hm : Meta.parse file = .ok m) :
+    m.count = es.length ∧ m.codec = cd.id ∧ m.version = 2 ∧ m.levels = cfg.levels ∧
+    scanForward cd file (es.length + 1) (RC.new m) =
+      es.map (fun e => Res.ok (some e)) ++ [Res.ok none] ∧
+    scanBackward cd file (es.length + 1) (RC.new m) =
+      es.reverse.map (fun e => Res.ok (some e)) ++ [Res.ok none] := by
+  obtain ⟨⟨h1, h2, h3, h4⟩, R, hsim, hR, -⟩ := S.main hm
+  exact ⟨h3, h2, h1, h4, scan_next hsim hR, scan_prev hsim hR⟩
+
+/-- The empty file scans as empty, in both directions. -/
+theorem C01_empty (S : Setting cd cfg [] file log) (hm : Meta.parse file = .ok m) :
+    m.count = 0 ∧ scanForward cd file 1 (RC.new m) = [Res.ok none] ∧
+      scanBackward cd file 1 (RC.new m) = [Res.ok none] := by
+  obtain ⟨h1, -, -, -, h5, h6⟩ := C01_roundtrip_of_run S hm
+  exact ⟨h1, h5, h6⟩
+
+/-- **C01.**  For every codec (lawful, id ≤ 5), every configuration (any block size, any
+    `index_levels ≤ 255`, any `index_key_interval ≥ 1`) and every strictly ascending input (key and
+    value lengths `< 2^32`, fewer than `2^64` pairs): inserting everything and finishing succeeds,
+    and — provided the output is smaller than `2^64` bytes and every block smaller than `2^32`
+    bytes — the file opens, reports count and codec, and scans back exactly, forwards and
+    backwards. -/
+theorem C01_roundtrip (cd : Codec) (cfg : WCfg) (es : List Entry)
+    (hlaw : cd.Lawful) (hid : cd.id ≤ 5) (hlv : cfg.levels ≤ 255) (hiv : 1 ≤ cfg.interval)
+    (hasc : StrictAsc es) (hlens : ∀ e ∈ es, e.1.length < 2 ^ 32 ∧ e.2.length < 2 ^ 32)
+    (hcount : es.length < 2 ^ 64) :
+    ∃ file log, W.run cd cfg es = .ok (file, log) ∧
+      (file.length < 2 ^ 64 → (∀ e ∈ log, e.raw.length < 2 ^ 32) →
+        ∃ m, Meta.parse file = .ok m ∧
+          m.count = es.length ∧ m.codec = cd.id ∧ m.version = 2 ∧ m.levels = cfg.levels ∧
+          scanForward cd file (es.length + 1) (RC.new m) =
+            es.map (fun e => Res.ok (some e)) ++ [Res.ok none] ∧
+          scanBackward cd file (es.length + 1) (RC.new m) =
+            es.reverse.map (fun e => Res.ok (some e)) ++ [Res.ok none]) := by
+  have H : WriterHyps cd cfg es := ⟨hlv, hlaw, hasc, hlens⟩
+  obtain ⟨file, log, hrun⟩ := T_writer_ok H
+  refine ⟨file, log, hrun, fun hfile hsmall => ?_⟩
+  have S : Setting cd cfg es file log := ⟨H, hiv, hrun, hfile, hcount, hid, hsmall⟩
+  obtain ⟨m, hm⟩ := C01_opens S
+  exact ⟨m, hm, C01_roundtrip_of_run S hm⟩
+
+/-- **C01/C03, byte level, every history.**  For every finite list of cursor operations, the
+    results of the byte-level reader over the written file agree with the specification cursor
+    over the inserted entries wherever the latter determines the result.
+    No restriction on the history: the reader never fails, even from position `lost`. -/
+theorem C01_bytes_history (S : Setting cd cfg es file log) (hm : Meta.parse file = .ok m)
+    (ops : List Op) :
+    ∀ x ∈ runBothG (reader cd file) es (RC.new m) .fresh ops, Spec.Agree x.1 x.2 := by
+  obtain ⟨-, R, hsim, hR, -⟩ := S.main hm
+  exact runBothG_agree hsim hR ops
+
+/-- The byte-level reader never reports an error on a written file, whatever the history. -/
+theorem C01_bytes_never_err (S : Setting cd cfg es file log) (hm : Meta.parse file = .ok m)
+    (ops : List Op) (op : Op) :
+    (reader cd file (stateAfter (reader cd file) (RC.new m) ops) op).2 ≠ .err := by
+  obtain ⟨root, hok, hparse⟩ := S.fileOK
+  rw [hm] at hparse
+  cases hparse
+  have hsim := RS_sim hok S.byteSim
+  obtain ⟨a, hrel, hinv, hne⟩ :=
+    stateAfter_R hsim
+      (RS_new hok (Rb cfg.interval log) ⟨2, root, cd.id, es.length, cfg.levels⟩ rfl rfl) ops
+  rw [(S.byteSim.step hrel op (NE_step hok hne op).1).2]
+  exact (NE_step hok hne op).1
+
+/-! ### C02, byte level -/
+
+/-- `ge q` from the freshly opened cursor returns the ceiling of `q`. -/
+theorem C02_bytes_ge (S : Setting cd cfg es file log) (hm : Meta.parse file = .ok m) (q : Bytes) :
+    (reader cd file (RC.new m) (.ge q)).2 = .ok (Spec.ceiling es q) := by
+  obtain ⟨-, R, hsim, hR, -⟩ := S.main hm
+  exact sim_ge hsim hR q
+
+/-- `le q` from the freshly opened cursor returns the floor of `q`. -/
+theorem C02_bytes_le (S : Setting cd cfg es file log) (hm : Meta.parse file = .ok m) (q : Bytes) :
+    (reader cd file (RC.new m) (.le q)).2 = .ok (Spec.floor es q) := by
+  obtain ⟨-, R, hsim, hR, -⟩ := S.main hm
+  exact sim_le hsim S.H.asc hR q
+
+/-- `eq q` from the freshly opened cursor returns the entry with key `q`, if any. -/
+theorem C02_bytes_eq (S : Setting cd cfg es file log) (hm : Meta.parse file = .ok m) (q : Bytes) :
+    (reader cd file (RC.new m) (.eq q)).2 = .ok (Spec.lookup es q) := by
+  obtain ⟨-, R, hsim, hR, -⟩ := S.main hm
+  exact sim_eq hsim S.H.asc hR q
+
+/-- After any history (resets, failed searches, runs off either end included). -/
+theorem C02_bytes_ge_after (S : Setting cd cfg es file log) (hm : Meta.parse file = .ok m)
+    (ops : List Op) (q : Bytes) :
+    (reader cd file (stateAfter (reader cd file) (RC.new m) ops) (.ge q)).2
+      = .ok (Spec.ceiling es q) := by
+  obtain ⟨-, R, hsim, hR, -⟩ := S.main hm
+  exact sim_ge hsim (stateAfter_R hsim hR ops) q
+
+theorem C02_bytes_le_after (S : Setting cd cfg es file log) (hm : Meta.parse file = .ok m)
+    (ops : List Op) (q : Bytes) :
+    (reader cd file (stateAfter (reader cd file) (RC.new m) ops) (.le q)).2
+      = .ok (Spec.floor es q) := by
+  obtain ⟨-, R, hsim, hR, -⟩ := S.main hm
+  exact sim_le hsim S.H.asc (stateAfter_R hsim hR ops) q
+
+theorem C02_bytes_eq_after (S : Setting cd cfg es file log) (hm : Meta.parse file = .ok m)
+    (ops : List Op) (q : Bytes) :
+    (reader cd file (stateAfter (reader cd file) (RC.new m) ops) (.eq q)).2
+      = .ok (Spec.lookup es q) := by
+  obtain ⟨-, R, hsim, hR, -⟩ := S.main hm
+  exact sim_eq hsim S.H.asc (stateAfter_R hsim hR ops) q
+
+/-- After `reset`, from any reachable state. -/
+theorem C02_bytes_ge_reset (S : Setting cd cfg es file log) (hm : Meta.parse file = .ok m)
+    (ops : List Op) (q : Bytes) :
+    (reader cd file (reader cd file (stateAfter (reader cd file) (RC.new m) ops) .reset).1 (.ge q)).2
+      = .ok (Spec.ceiling es q) := by
+  obtain ⟨-, R, hsim, hR, -⟩ := S.main hm
+  exact sim_ge hsim (hsim _ _ .reset (stateAfter_R hsim hR ops)).1 q
+
+theorem C02_bytes_le_reset (S : Setting cd cfg es file log) (hm : Meta.parse file = .ok m)
+    (ops : List Op) (q : Bytes) :
+    (reader cd file (reader cd file (stateAfter (reader cd file) (RC.new m) ops) .reset).1 (.le q)).2
+      = .ok (Spec.floor es q) := by
+  obtain ⟨-, R, hsim, hR, -⟩ := S.main hm
+  exact sim_le hsim S.H.asc (hsim _ _ .reset (stateAfter_R hsim hR ops)).1 q
+
+theorem C02_bytes_eq_reset (S : Setting cd cfg es file log) (hm : Meta.parse file = .ok m)
+    (ops : List Op) (q : Bytes) :
+    (reader cd file (reader cd file (stateAfter (reader cd file) (RC.new m) ops) .reset).1 (.eq q)).2
+      = .ok (Spec.lookup es q) := by
+  obtain ⟨-, R, hsim, hR, -⟩ := S.main hm
+  exact sim_eq hsim S.H.asc (hsim _ _ .reset (stateAfter_R hsim hR ops)).1 q
+
+/-! ### C04, byte level -/
+
+/-- The forward range iterator over the byte-level reader yields exactly the entries in range,
+    ascending. -/
+theorem C04_bytes_range (S : Setting cd cfg es file log) (hm : Meta.parse file = .ok m)
+    (lo hi : Bound) (fuel : Nat) (hfuel : fuel > es.length) :
+    collect (RangeIter.next (reader cd file)) fuel { cursor := RC.new m, lo := lo, hi := hi } [] =
+      some (Spec.range es lo hi) := by
+  obtain ⟨-, R, hsim, hR, -⟩ := S.main hm
+  exact IterP.range_collect hsim S.H.asc _ _ hR lo hi fuel hfuel
+
+/-- The backward range iterator yields them descending. -/
+theorem C04_bytes_range_rev (S : Setting cd cfg es file log) (hm : Meta.parse file = .ok m)
+    (lo hi : Bound) (fuel : Nat) (hfuel : fuel > es.length) :
+    collect (RangeIter.nextRev (reader cd file)) fuel
+        { cursor := RC.new m, lo := lo, hi := hi } [] =
+      some (Spec.range es lo hi).reverse := by
+  obtain ⟨-, R, hsim, hR, -⟩ := S.main hm
+  exact IterP.range_collect_rev hsim S.H.asc _ _ hR lo hi fuel hfuel
+
+/-- The same from the cursor state reached after any history (a range iterator re-seeks). -/
+theorem C04_bytes_range_after (S : Setting cd cfg es file log) (hm : Meta.parse file = .ok m)
+    (ops : List Op) (lo hi : Bound) (fuel : Nat) (hfuel : fuel > es.length) :
+    collect (RangeIter.next (reader cd file)) fuel
+        { cursor := stateAfter (reader cd file) (RC.new m) ops, lo := lo, hi := hi } [] =
+      some (Spec.range es lo hi) := by
+  obtain ⟨-, R, hsim, hR, -⟩ := S.main hm
+  exact IterP.range_collect hsim S.H.asc _ _ (stateAfter_R hsim hR ops) lo hi fuel hfuel
+
+/-! ### C05, byte level -/
+
+/-- The forward prefix iterator over the byte-level reader yields exactly the entries whose key
+    starts with the prefix, ascending. -/
+theorem C05_bytes_prefix (S : Setting cd cfg es file log) (hm : Meta.parse file = .ok m)
+    (p : Bytes) (fuel : Nat) (hfuel : fuel > es.length) :
+    collect (PrefixIter.next (reader cd file)) fuel { cursor := RC.new m, pre := p } [] =
+      some (Spec.withPrefix es p) := by
+  obtain ⟨-, R, hsim, hR, -⟩ := S.main hm
+  exact IterP.prefix_collect hsim S.H.asc _ _ hR p fuel hfuel
+
+/-- The side condition of the backward prefix iterator holds for the byte-level reader: after a
+    failed floor seek, `current()` does not fail and returns nothing or an entry of the file. -/
+theorem C05_bytes_side_condition (S : Setting cd cfg es file log) (hm : Meta.parse file = .ok m)
+    (p : Bytes) : IterP.LostCurrentOK (reader cd file) (RC.new m) p := by
+  obtain ⟨-, R, hsim, hR, hside⟩ := S.main hm
+  exact IterP.lostCurrentOK_of_mem hsim S.H.asc _ _ hR p (hside _ _ hR)
+
+/-- The backward prefix iterator yields them descending. -/
+theorem C05_bytes_prefix_rev (S : Setting cd cfg es file log) (hm : Meta.parse file = .ok m)
+    (p : Bytes) (fuel : Nat) (hfuel : fuel > es.length) :
+    collect (PrefixIter.nextRev (reader cd file)) fuel { cursor := RC.new m, pre := p } [] =
+      some (Spec.withPrefix es p).reverse := by
+  obtain ⟨-, R, hsim, hR, hside⟩ := S.main hm
+  exact IterP.prefix_collect_rev hsim S.H.asc _ _ hR p
+    (IterP.lostCurrentOK_of_mem hsim S.H.asc _ _ hR p (hside _ _ hR)) fuel hfuel
+
+end
+
+/-! ### A concrete instance, end to end
+
+`Codec.none`, `MIN_BLOCK_SIZE` lowered to 28 (so that twelve small entries already span four data
+blocks, two bottom-level index blocks, one middle index block and the root), two index levels
+below the root, interval 2.  The writer is run, the trailer parsed and the file scanned, all by
+kernel evaluation (`decide`). -/
+
+def exCfg : WCfg := { blockSize := 0, minBlock := 28, interval := 2, levels := 2 }
+
+def exEs : List Entry :=
+  [([1], [10]), ([2], [20, 21]), ([3, 0], []), ([3, 1], [30, 31, 32]), ([4], [40]),
+   ([5, 5, 5], [50]), ([6], [60]), ([7], [70, 71]), ([7, 0], []), ([8, 1], [80, 81, 82]),
+   ([9], [90]), ([9, 5, 5], [95])]
+
+theorem exHyps : WriterHyps Codec.none exCfg exEs :=
+  ⟨by decide, fun _ => rfl, by unfold StrictAsc exEs; decide, by simp [exEs]⟩
+
+/-- The bytes written for `exEs`. -/
+def exFile : Bytes :=
+  match W.run Codec.none exCfg exEs with
+  | .ok (f, _) => f
+  | .error _ => []
+
+/-- The blocks emitted for `exEs`. -/
+def exLog : List Emitted :=
+  match W.run Codec.none exCfg exEs with
+  | .ok (_, l) => l
+  | .error _ => []
+
+theorem exRun : W.run Codec.none exCfg exEs = .ok (exFile, exLog) := by
+  obtain ⟨file, log, h⟩ := T_writer_ok exHyps
+  simp only [exFile, exLog, h]
+
+/-- Size side conditions, and the shape of the log (levels of the emitted blocks, in emission
+    order), as a Boolean. -/
+def exSizesOK : Bool :=
+  decide (exFile.length < 2 ^ 64) && exLog.all (fun e => decide (e.raw.length < 2 ^ 32)) &&
+    decide (exLog.map (·.level) = [0, 0, 1, 0, 0, 1, 2, 3])
+
+theorem exSizes : exSizesOK = true := by
+  set_option maxRecDepth 100000 in decide
+
+/-- The hypotheses of every theorem of this file are satisfiable: a non-trivial instance. -/
+theorem exSetting : Setting Codec.none exCfg exEs exFile exLog := by
+  have h := exSizes
+  simp only [exSizesOK, Bool.and_eq_true, decide_eq_true_eq, List.all_eq_true] at h
+  exact ⟨exHyps, by decide, exRun, h.1.1, by decide, by decide, h.1.2⟩
+
+/-- End-to-end evaluation: the file opens with count 12 / codec 0 / two levels, `next()` × 13
+    returns the twelve pairs in order then `None`, and `prev()` × 13 the reverse. -/
+def exCheck : Bool :=
+  match Meta.parse exFile with
+  | .ok m =>
+    decide (m.count = 12 ∧ m.codec = 0 ∧ m.version = 2 ∧ m.levels = 2 ∧
+      scanForward Codec.none exFile 13 (RC.new m) =
+        exEs.map (fun e => Res.ok (some e)) ++ [Res.ok none] ∧
+      scanBackward Codec.none exFile 13 (RC.new m) =
+        exEs.reverse.map (fun e => Res.ok (some e)) ++ [Res.ok none])
+  | .error _ => false
+
+/-- By evaluation in the kernel (no theorem of this development is used). -/
+theorem exCheck_true : exCheck = true := by
+  set_option maxRecDepth 100000 in decide
+
+/-- Key searches, a range and a prefix on the same file, by evaluation. -/
+def exCheck2 : Bool :=
+  match Meta.parse exFile with
+  | .ok m =>
+    decide (
+      (reader Codec.none exFile (RC.new m) (.ge [3])).2 = .ok (some ([3, 0], [])) ∧
+      (reader Codec.none exFile (RC.new m) (.le [8])).2 = .ok (some ([7, 0], [])) ∧
+      (reader Codec.none exFile (RC.new m) (.eq [5, 5])).2 = .ok none ∧
+      collect (RangeIter.next (reader Codec.none exFile)) 13
+          { cursor := RC.new m, lo := .excluded [3, 0], hi := .included [7] } [] =
+        some [([3, 1], [30, 31, 32]), ([4], [40]), ([5, 5, 5], [50]), ([6], [60]), ([7], [70, 71])] ∧
+      collect (PrefixIter.nextRev (reader Codec.none exFile)) 13
+          { cursor := RC.new m, pre := [9] } [] = some [([9, 5, 5], [95]), ([9], [90])] ∧
+      collect (PrefixIter.nextRev (reader Codec.none exFile)) 13
+          { cursor := RC.new m, pre := [0] } [] = some [])
+  | .error _ => false
+
+theorem exCheck2_true : exCheck2 = true := by
+  set_option maxRecDepth 100000 in decide
+
+/-! ### The theorems applied to the instance -/
+
+example : ∃ m, Meta.parse exFile = .ok m ∧ m.count = 12 ∧
+    scanForward Codec.none exFile 13 (RC.new m) =
+      exEs.map (fun e => Res.ok (some e)) ++ [Res.ok none] := by
+  obtain ⟨m, hm⟩ := C01_opens exSetting
+  obtain ⟨h1, -, -, -, h5, -⟩ := C01_roundtrip_of_run exSetting hm
+  exact ⟨m, hm, h1, h5⟩
+
+example : ∃ file log, W.run Codec.none exCfg exEs = .ok (file, log) :=
+  (C01_roundtrip Codec.none exCfg exEs (fun _ => rfl) (by decide) (by decide) (by decide)
+    exHyps.asc exHyps.lens (by decide)).imp fun _ h => h.imp fun _ h => h.1
+
+/-- The empty input: a file that scans as empty. -/
+example : ∃ file log, W.run Codec.none exCfg [] = .ok (file, log) ∧
+    (file.length < 2 ^ 64 → (∀ e ∈ log, e.raw.length < 2 ^ 32) →
+      ∃ m, Meta.parse file = .ok m ∧ m.count = 0 ∧
+        scanForward Codec.none file 1 (RC.new m) = [Res.ok none] ∧
+        scanBackward Codec.none file 1 (RC.new m) = [Res.ok none]) := by
+  obtain ⟨file, log, hrun, h⟩ := C01_roundtrip Codec.none exCfg [] (fun _ => rfl) (by decide)
+    (by decide) (by decide) List.Pairwise.nil (by simp) (by decide)
+  refine ⟨file, log, hrun, fun h1 h2 => ?_⟩
+  obtain ⟨m, hm, g1, -, -, -, g5, g6⟩ := h h1 h2
+  exact ⟨m, hm, g1, g5, g6⟩
+
+example (m : Meta.Meta) (hm : Meta.parse exFile = .ok m) (ops : List Op) :
+    ∀ x ∈ runBothG (reader Codec.none exFile) exEs (RC.new m) .fresh ops, Spec.Agree x.1 x.2 :=
+  C01_bytes_history exSetting hm ops
+
+example (m : Meta.Meta) (hm : Meta.parse exFile = .ok m) (ops : List Op) (q : Bytes) :
+    (reader Codec.none exFile (stateAfter (reader Codec.none exFile) (RC.new m) ops) (.le q)).2
+      = .ok (Spec.floor exEs q) :=
+  C02_bytes_le_after exSetting hm ops q
+
+example (m : Meta.Meta) (hm : Meta.parse exFile = .ok m) (lo hi : Bound) :
+    collect (RangeIter.nextRev (reader Codec.none exFile)) 13
+        { cursor := RC.new m, lo := lo, hi := hi } [] = some (Spec.range exEs lo hi).reverse :=
+  C04_bytes_range_rev exSetting hm lo hi 13 (by decide)
+
+example (m : Meta.Meta) (hm : Meta.parse exFile = .ok m) (p : Bytes) :
+    collect (PrefixIter.nextRev (reader Codec.none exFile)) 13 { cursor := RC.new m, pre := p } [] =
+      some (Spec.withPrefix exEs p).reverse :=
+  C05_bytes_prefix_rev exSetting hm p 13 (by decide)
+
 end Grenad.Props.C01
+
+section Audit
+open Grenad.Props.C01
+#print axioms C01_roundtrip
+#print axioms C01_roundtrip_of_run
+#print axioms C01_empty
+#print axioms C01_bytes_history
+#print axioms C01_bytes_never_err
+#print axioms C02_bytes_ge
+#print axioms C02_bytes_le
+#print axioms C02_bytes_eq
+#print axioms C02_bytes_ge_after
+#print axioms C02_bytes_le_reset
+#print axioms C04_bytes_range
+#print axioms C04_bytes_range_rev
+#print axioms C04_bytes_range_after
+#print axioms C05_bytes_prefix
+#print axioms C05_bytes_side_condition
+#print axioms C05_bytes_prefix_rev
+#print axioms exSetting
+#print axioms exCheck_true
+#print axioms exCheck2_true
+end Audit
